@@ -23,8 +23,8 @@ ASSUMPTIONS = [
     "fake Device/Storage/Interface classes are the repository's test fakes (tests/annet/test_mesh/fakes.py)",
     "handlers set address families and shared options on the session only (per-peer families would legitimately differ between the two ends)",
 ]
-FLOORS = {"quick": {"topologies": 250, "executions": 3000, "mirrored_pairs": 600, "permutations_compared": 1500, "conflicts_expected": 30, "merge_law_checks": 3000, "shared_handler_constants_checked": 200, "peer_options_checked": 300},
-          "thorough": {"topologies": 9000, "executions": 100000, "mirrored_pairs": 20000, "permutations_compared": 50000, "conflicts_expected": 1000, "merge_law_checks": 100000, "shared_handler_constants_checked": 7000, "peer_options_checked": 10000}}
+FLOORS = {"quick": {"topologies": 250, "executions": 3000, "mirrored_pairs": 600, "permutations_compared": 1500, "conflicts_expected": 30, "merge_law_checks": 3000, "shared_handler_constants_checked": 200, "peer_options_checked": 300, "shared_executor_runs": 150, "shared_executor_runs_with_differently_named_link_ends": 80, "linklocal_cases_with_two_neighbours_sharing_an_address": 25},
+          "thorough": {"topologies": 9000, "executions": 100000, "mirrored_pairs": 20000, "permutations_compared": 50000, "conflicts_expected": 1000, "merge_law_checks": 100000, "shared_handler_constants_checked": 7000, "peer_options_checked": 10000, "shared_executor_runs": 5000, "shared_executor_runs_with_differently_named_link_ends": 2500, "linklocal_cases_with_two_neighbours_sharing_an_address": 800}}
 
 
 def plan(tier, seed):
@@ -148,6 +148,8 @@ def port_index(ports):
 def addrs_for(rule, li, ri, lports):
     third = (li * 16 + ri) % 250
     k = port_index(lports) if rule.get("ports") == "separate" else 0
+    if rule.get("linklocal"):
+        return "fe80::1/64", "fe80::2/64"  # per-link identical numbering: every neighbour has the same address on its end
     if rule.get("v6"):
         # valid but not canonical spellings (upper-case hex, leading zeros): the peer address is an address, not a text
         return "2001:DB8:%04X:%X::%X/127" % (rule["net"], third, 0xA0 + 2 * k), "2001:DB8:%04X:%X::%X/127" % (rule["net"], third, 0xA0 + 2 * k + 1)
@@ -289,12 +291,44 @@ def run_all(topo, rules, order):
     return out
 
 
+def run_shared(topo, rules, order, dev_order):
+    """one storage and ONE executor serving every device in turn (what a generator run over many devices does)"""
+    from annet.mesh import MeshExecutor
+    st, devs = build_topology(topo)
+    ex = MeshExecutor(make_registry(rules, order), st)
+    out = {}
+    for name in dev_order:
+        try:
+            res = ex.execute_for(devs[name])
+            peers = sorted((canon_peer(p) for p in res.peers), key=lambda p: (p["hostname"], p["addr"], p["vrf"]))
+            out[name] = ("ok", peers, canon_global(res.global_options))
+        except Exception as e:
+            out[name] = ("error", type(e).__name__, str(e)[:200])
+    ifaddrs = {}
+    for name in topo["devices"]:
+        d = {}
+        for i in devs[name].interfaces:
+            if i.addrs:
+                d[i.name] = sorted(set(d.get(i.name, [])) | set(map(str, i.addrs)))
+        ifaddrs[name] = d
+    return out, ifaddrs
+
+
 def tmatch(mask, name):
     """own reading of a peer name template: {g} = digits, {g:regex} = regex"""
     rx = re.sub(r"{(\w+)}", r"(?P<\1>\\d+)", mask)
     rx = re.sub(r"{(\w+):(.*?)}", r"(?P<\1>\2)", rx)
     m = re.fullmatch(rx, name)
     return None if m is None else {k: v for k, v in m.groupdict().items()}
+
+
+def link_names(topo):
+    cnt, out = {d: 0 for d in topo["devices"]}, {}
+    for a, b, k in topo["links"]:
+        out[(a, b, k)] = ("eth%d" % cnt[a], "eth%d" % cnt[b])
+        cnt[a] += 1
+        cnt[b] += 1
+    return out
 
 
 def expected_iface(rule, ports):
@@ -310,12 +344,28 @@ def expected_iface(rule, ports):
     return ports[0]
 
 
-def check_case(seed, acc):
+def check_case(seed, acc, ll=False):
     rng = random.Random(seed)
     topo = gen_topology(rng)
     rules = gen_rules(rng, topo)
+    if ll:
+        # link-local style numbering: all neighbours of a device carry the same address text on their end; sessions stay distinct per neighbour.
+        # (one link per device pair: two parallel sessions to one neighbour with one address would be the same session)
+        seen_pairs, links = set(), []
+        for l_ in topo["links"]:
+            if (l_[0], l_[1]) not in seen_pairs:
+                seen_pairs.add((l_[0], l_[1]))
+                links.append([l_[0], l_[1], 0])
+        topo["links"] = links
+        for r_ in rules:
+            if r_["type"] == "direct":
+                r_["linklocal"] = True
+        acc.count("linklocal_cases")
+        if any(sum(1 for l_ in links if d in l_[:2]) >= 2 for d in topo["devices"]):
+            acc.count("linklocal_cases_with_two_neighbours_sharing_an_address")
     try:
         w = _check_case(seed, acc, rng, topo, rules)
+        w["ll"] = ll
     finally:
         mine = [k for k in SHARED_FAMILIES if k[0] == id(rules)]
         for k in mine:
@@ -378,6 +428,26 @@ def _check_case(seed, acc, rng, topo, rules):
                 which = "peers" if a[1] != b[1] else ("global_options" if a[2] != b[2] else "interface_addresses")
                 acc.violation("C15/result-depends-on-registration-order", "the outcome of execute_for depends on the order in which handlers were registered",
                               dict(w, device=dname, order=list(perm), differs_in=which))
+                return w
+    # ---- one executor serving all devices gives every device what its own fresh executor gives ---------------------
+    if all(r[0] == "ok" for r in res0.values()):
+        srng = random.Random(seed ^ 0x5EED)
+        dev_order = list(topo["devices"])
+        srng.shuffle(dev_order)
+        shared, sh_if = run_shared(topo, rules, base_order, dev_order)
+        acc.count("shared_executor_runs")
+        acc.count("executions", len(dev_order))
+        if any(a != b for l_ in topo["links"] for a, b in [(link_names(topo)[(l_[0], l_[1], l_[2])])]):
+            acc.count("shared_executor_runs_with_differently_named_link_ends")
+        for dname in dev_order:
+            a, b = res0[dname], shared[dname]
+            if b[0] != "ok" or a[1] != b[1] or a[2] != b[2]:
+                acc.violation("C15/result-depends-on-executor-history", "an executor that already served another device gives this device other peers/options than a fresh executor",
+                              dict(w, device=dname, device_order=dev_order, fresh=a[1] if b[0] == "ok" else "ok", shared=b[1] if b[0] == "ok" else b))
+                return w
+            if a[3] != sh_if[dname]:
+                acc.violation("C15/interface-addresses-depend-on-executor-history", "after one executor served all devices a device's interfaces carry other addresses than after its own fresh run",
+                              dict(w, device=dname, device_order=dev_order, fresh=a[3], shared=sh_if[dname]))
                 return w
     # ---- mirror and table checks on the base order -----------------------------------------------------------
     link_ports = {}
@@ -564,7 +634,7 @@ def run_shard(spec, acc):
         w = spec["witness"]
         if w.get("merge"):
             return run_merge({"tier": "quick", "seed": 0}, acc)
-        check_case(w["seed"], acc)
+        check_case(w["seed"], acc, ll=bool(w.get("ll")))
         return
     if spec["mode"] == "merge":
         return run_merge(spec, acc)
@@ -575,3 +645,5 @@ def run_shard(spec, acc):
         w = check_case(rng.randrange(1 << 48), acc)
         if j < 2 and w:
             acc.sample({"topology": w["topology"], "rules": w["rules"][:3]})
+        if j % 4 == 1:
+            check_case(rng.randrange(1 << 48), acc, ll=True)
